@@ -1,0 +1,23 @@
+// SPDX-FileCopyrightText: 2026 The Pion community <https://pion.ly>
+// SPDX-License-Identifier: MIT
+
+//go:build verif
+
+package gcc
+
+// VerifC16PacerTarget reports which pacer the estimator uses (1 = *LeakyBucketPacer,
+// 2 = *NoOpPacer, 0 = a pacer type of the caller) and, for the leaky bucket pacer, the
+// targetBitrate it currently holds: the rate it was constructed with until the first
+// SetTargetBitrate, int(f * rate) afterwards (property C16: the pacer is told the rate the
+// getter reports). It is a method so that a harness can probe for it with an interface
+// assertion.
+func (e *SendSideBWE) VerifC16PacerTarget() (kind int, target int) {
+	switch p := e.pacer.(type) {
+	case *LeakyBucketPacer:
+		return 1, p.getTargetBitrate()
+	case *NoOpPacer:
+		return 2, 0
+	}
+
+	return 0, 0
+}
